@@ -5289,11 +5289,21 @@ class DfaCompileCtx:
                                 visited.add(i.target)
                                 aux(i.target)
                     else:
-                        real_target = x[transition.on_values]
-                        if real_target and real_target.is_fallthrough and consider(real_target):
-                            if real_target.target not in visited:
-                                visited.add(real_target.target)
-                                aux(real_target.target)
+                        # Follow every symbol the transition stands for on its own: the loop need only exist for one of them (looking
+                        # them up as a set gives no answer when they take different transitions here).
+                        symbols = set(transition.on_values)
+                        if DFTransition.Else in symbols:
+                            symbols |= x.compute_foreign_else_definition(state)
+                        followed = []
+                        for symbol in symbols:
+                            real_target = x[symbol]
+                            if real_target is None or any(real_target is y for y in followed):
+                                continue
+                            followed.append(real_target)
+                            if real_target.is_fallthrough and consider(real_target):
+                                if real_target.target not in visited:
+                                    visited.add(real_target.target)
+                                    aux(real_target.target)
                 
                 aux(state)
 
